@@ -564,3 +564,29 @@ impl fmt::Display for F64Offset {
         write!(f, "F64Offset({})", self.0)
     }
 }
+
+/// Size accessors for the verification hook `verif_hooks::machine_footprint` (add-only).
+#[cfg(feature = "verif")]
+impl<T: fmt::Debug + RawBlockTraits> OffsetTableImpl<T> {
+    /// Number of entries ever allocated in the table (entries are never freed).
+    pub(crate) fn verif_entry_count(&self) -> usize {
+        match &self.0 {
+            InnerOffsetTableImpl::Serial(tbl) => tbl.block.used_bytes() / size_of::<T>(),
+            InnerOffsetTableImpl::Concurrent(tbl) => {
+                tbl.block.read().used_bytes() / size_of::<T>()
+            }
+        }
+    }
+}
+
+/// Size accessors for the verification hook `verif_hooks::machine_footprint` (add-only).
+#[cfg(feature = "verif")]
+impl F64Table {
+    /// Number of distinct floats interned in the table.
+    pub(crate) fn verif_entry_count(&self) -> usize {
+        match self {
+            F64Table::Serial(serial_tbl) => serial_tbl.indirection_tbl.len(),
+            F64Table::Concurrent(concurrent_tbl) => concurrent_tbl.indirection_tbl.lock().len(),
+        }
+    }
+}
